@@ -22,7 +22,13 @@ function render(c) {
   const map = c.map.map((i) => R.ENTRY_MENU[i]);
   const enc = R.encode(map, c.path);
   const call = `defineComponent((props: ${enc.type}) => () => null)`;
-  if (c.scope === 'shadow') {
+  if (c.scope === 'shadowChain') {
+    // a function-local alias shadows an outer type of the same name and reaches that outer type through an outer chain
+    const third = Math.ceil(map.length / 3);
+    const p1 = map.slice(0, third), p2 = map.slice(third, 2 * third), p3 = map.slice(2 * third);
+    return `${R.PRELUDE}type Props = ${R.lit(p3)};\ntype Mid = ${R.lit(p2)} & Props;\nconst make = () => {\n  type Props = ${R.lit(p1)} & Mid;\n  return defineComponent((props: Props) => () => null);\n};\nexport const C = make();\n`;
+  }
+  if (c.scope === 'shadow' || c.scope === 'shadowArrow' || c.scope === 'shadowFnExpr') {
     // same-named outer declarations with different members; the inner (function-local) ones must win
     const outer = enc.decls.map((d) => {
       const m = /^(?:export )?(interface|type) (\w+)/.exec(d);
@@ -31,7 +37,8 @@ function render(c) {
     const uniq = [...new Set(outer)];
     const inner = enc.decls.map((d) => d.replace(/^export /, ''));
     const body = c.pos === 'before' ? `${inner.join('\n  ')}\n  return ${call};` : `const r = ${call};\n  ${inner.join('\n  ')}\n  return r;`;
-    return `${R.PRELUDE}${uniq.join('\n')}\nfunction make() {\n  ${body}\n}\nexport const C = make();\n`;
+    const fn = c.scope === 'shadowArrow' ? `const make = () => {\n  ${body}\n};` : c.scope === 'shadowFnExpr' ? `const make = function () {\n  ${body}\n};` : `function make() {\n  ${body}\n}`;
+    return `${R.PRELUDE}${uniq.join('\n')}\n${fn}\nexport const C = make();\n`;
   }
   const decls = enc.decls.join('\n');
   return c.pos === 'before' ? `${R.PRELUDE}${decls}\nexport const C = ${call};\n` : `${R.PRELUDE}export const C = ${call};\n${decls}\n`;
@@ -49,7 +56,7 @@ function judge(c, resps) {
     if (!errors.length) viol.push({ clause: 'unresolvable-reported', diff: 'diag:missing', msg: `a props type that cannot be resolved (${c.u}) was not reported as an error`, observed: r.printed });
     return { viol, obs: 'U:' + c.u + ':' + errors.length, clauses: ['unresolvable-reported'] };
   }
-  const expMap = c.sp === 'U' ? UNRESOLVABLE[c.u].map : R.encode(c.map.map((i) => R.ENTRY_MENU[i]), c.path).map;
+  const expMap = c.sp === 'U' ? UNRESOLVABLE[c.u].map : c.scope === 'shadowChain' ? c.map.map((i) => R.ENTRY_MENU[i]) : R.encode(c.map.map((i) => R.ENTRY_MENU[i]), c.path).map;
   const exp = {};
   for (const e of expMap) exp[e.name] = { required: e.kind === 'getter' ? true : !e.optional };
   const res = R.run(r.eval_js);
@@ -84,9 +91,10 @@ function spaces(tier) {
   return [
     {
       name: 'P:maps×encodings',
-      bounds: { entry_menu: R.ENTRY_MENU.map(R.memberSrc), max_entries: thorough ? 4 : 3, operators: R.ENC_KEYS, operator_depth: thorough ? 3 : 2, positions: ['before', 'after'], scopes: ['module', 'shadow'] },
+      bounds: { entry_menu: R.ENTRY_MENU.map(R.memberSrc), max_entries: thorough ? 4 : 3, operators: R.ENC_KEYS, operator_depth: thorough ? 3 : 2, positions: ['before', 'after'], scopes: ['module', 'shadow (function declaration)', 'shadow in arrow', 'shadow in function expression', 'shadowing chain through outer types'] },
       *gen() {
-        for (const map of allMaps) for (const path of paths(1)) for (const pos of ['before', 'after']) for (const scope of ['module', 'shadow']) yield { sp: 'P', map, path, pos, scope };
+        for (const map of allMaps) for (const path of paths(1)) for (const pos of ['before', 'after']) for (const scope of ['module', 'shadow', 'shadowArrow', 'shadowFnExpr']) yield { sp: 'P', map, path, pos, scope };
+        for (const map of allMaps) yield { sp: 'P', map, path: [], pos: 'before', scope: 'shadowChain' };
         for (const map of (thorough ? allMaps : coreMaps)) for (const path of paths(thorough ? 3 : 2)) if (path.length >= 2) for (const pos of (thorough ? ['before', 'after'] : ['before'])) {
           if (thorough && path.length === 3 && map.length !== 2) continue;
           yield { sp: 'P', map, path, pos, scope: 'module' };
@@ -112,6 +120,6 @@ module.exports = {
   rule: 'BFS over encodings of an abstract prop map: every map of ≤3 (thorough 4) entries from the entry menu (plain / quoted-hyphenated keys, methods, getters, optional flags) × every operator path up to the depth bound (inline, alias, alias chain, interface, merged interface, extends (single and multiple), intersection, parentheses, exported, Partial, Required, Pick (inline and aliased key union), Omit, indexed access) × declaration before/after the call × module scope / function-local declarations shadowing same-named outer ones; each state is transformed by the real visitor with resolveType on and executed; the props option received by the mock defineComponent must have exactly the map\'s keys (as spelled) with required = not optional, and no error diagnostic; unresolvable forms must produce an error. The abstract map is the reference model. Distinct = distinct (observed props, diagnostics) pairs.',
   assumptions: ['mock defineComponent records its arguments', 'TS eraser of the driver (generated programs of known shape)', 'SWC TypeScript parser'],
   spaces, requests, judge, shrink,
-  caseKey: (c) => (c.sp === 'U' ? 'U:' + c.u : `P:{${c.map.map((i) => R.memberSrc(R.ENTRY_MENU[i])).join('; ')}} via ${c.path.join('∘') || 'inline'} @${c.pos}${c.scope === 'shadow' ? ' shadowed' : ''}`),
+  caseKey: (c) => (c.sp === 'U' ? 'U:' + c.u : `P:{${c.map.map((i) => R.memberSrc(R.ENTRY_MENU[i])).join('; ')}} via ${c.path.join('∘') || 'inline'} @${c.pos}${c.scope !== 'module' ? ' ' + c.scope : ''}`),
   depth: (c) => (c.sp === 'U' ? 1 : c.path.length + c.map.length),
 };
